@@ -18,7 +18,7 @@ def scen(quick):
 def rule(quick, shards):
     return (f"{shards} shards x {250 if quick else 2500} tapes of 0..4 blocks (data lengths 0,1,2,17,125..129,253..257,300,700; wrong checksums, "
             "truncated tails), one request per block plus 1-2 past the end: flag match/mismatch, LOAD/VERIFY against equal/unequal memory, "
-            "DE = 0 / shorter / longer / exact / 0xFFxx, destinations in RAM, screen, across 0xFFFF and into ROM; the host rewinding between requests; fast "
+            "DE = 0 / shorter / longer / exact / 0xFFxx, destinations in RAM, screen, across 0xFFFF and into ROM; the host rewinding between requests; two tapes out of three inserted into the machine that used the previous one; fast "
             "loading switched off and on again at run time around a request on the stopped deck; 48K and 128K (ROM 1 paged)")
 
 
